@@ -97,3 +97,34 @@ Theorem C19_pack_dtc : forall d, 0 <= d < 16777216 ->
   pack_dtc d = inr (be_enc 3 d) /\ be_dec (be_enc 3 d) = d /\ wf_bytes (be_enc 3 d).
 Proof. exact pack_dtc_ok. Qed.
 Print Assumptions C19_pack_dtc.
+
+(* ---- the code is the model (regenerated each run): decision trees obtained by executing CommunicationType, DataFormatIdentifier,
+   AddressAndLengthFormatIdentifier and Baudrate on symbolic arguments (tools/symtrans.py) ---- *)
+From UDS Require Import Gen.Fn_Codecs Proofs.Tie_codecs.
+
+Theorem C19_code_commtype_byte : forall sn n m, fn_commtype_byte sn n m = (c <- mk_commtype sn n m ;; ret (commtype_byte c)).
+Proof. exact tie_commtype_byte. Qed.
+Print Assumptions C19_code_commtype_byte.
+Theorem C19_code_commtype_from_byte : forall v,
+  fn_commtype_from_byte v =
+  (if (v <? 0) || (255 <? v) then fail EValue else c <- commtype_from_byte v ;; ret (ct_subnet c, ct_normal c, ct_nm c)).
+Proof. exact tie_commtype_from_byte. Qed.
+Print Assumptions C19_code_commtype_from_byte.
+Theorem C19_code_dfi_byte : forall c e, fn_dfi_byte c e = (d <- mk_dfi c e ;; ret (dfi_byte d)).
+Proof. exact tie_dfi_byte. Qed.
+Print Assumptions C19_code_dfi_byte.
+Theorem C19_code_dfi_from_byte : forall b, fn_dfi_from_byte b = (d <- dfi_from_byte b ;; ret (df_comp d, df_enc d)).
+Proof. exact tie_dfi_from_byte. Qed.
+Print Assumptions C19_code_dfi_from_byte.
+Theorem C19_code_alfid_byte : forall af sf, fn_alfid_byte af sf = (al <- mk_alfid af sf ;; alfid_byte al).
+Proof. exact tie_alfid_byte. Qed.
+Print Assumptions C19_code_alfid_byte.
+Theorem C19_code_baudrate : forall r t, fn_baud r t = (b <- mk_baud r t ;; ret (bd_rate b, bd_type b)).
+Proof. exact tie_baud. Qed.
+Print Assumptions C19_code_baudrate.
+Theorem C19_code_baudrate_bytes : forall r t, fn_baud_bytes r t = (b <- mk_baud r t ;; baud_bytes b).
+Proof. exact tie_baud_bytes. Qed.
+Print Assumptions C19_code_baudrate_bytes.
+Theorem C19_code_baudrate_effective : forall r t, fn_baud_effective r t = (b <- mk_baud r t ;; baud_effective b).
+Proof. exact tie_baud_effective. Qed.
+Print Assumptions C19_code_baudrate_effective.
